@@ -189,7 +189,33 @@ struct PrngWorld : World {
     {
         if (!c.live) return;
         ascon_random_free(c.ram);
-        if (c.residue) c.residue->push_back(Bytes((uint8_t *)c.ram, (uint8_t *)c.ram + sizeof(ascon_random_state_t)));
+        if (c.residue) {
+            Bytes left((uint8_t *)c.ram, (uint8_t *)c.ram + sizeof(ascon_random_state_t));
+            c.residue->push_back(left);
+            if (c.record) {
+                // History independence: a copy of the freed bytes goes through init + free with nothing in between (on
+                // a private entropy tape, so the run's own tape is not disturbed).  A byte that differs afterwards was
+                // left over from what this generator did in its life (bytes produced, phase of the sponge).
+                simrng_t tmp;
+                memset(&tmp, 0, sizeof tmp);
+                simrng_reset(&tmp, 0xBA5E11AEull, SIMRNG_RANDOM);
+                simrng_t *prev = simrng_cur();
+                simrng_use(&tmp);
+                ascon_random_state_t *scratch = (ascon_random_state_t *)aalloc(64, sizeof(ascon_random_state_t));
+                memcpy(scratch, left.data(), left.size());
+                ascon_random_init(scratch);
+                ascon_random_free(scratch);
+                simrng_use(prev == &tmp ? nullptr : prev);
+                c.run->probe("twin.free_vs_unused_object");
+                if (memcmp(scratch, left.data(), left.size()) != 0) {
+                    size_t d = 0;
+                    while (d < left.size() && ((uint8_t *)scratch)[d] == left[d]) ++d;
+                    c.run->violation("C13", "residue_depends_on_history", "ascon_random_state_t",
+                                     fmt("byte %zu of %zu of the freed generator is 0x%02x after its history and 0x%02x after init+free alone", d, left.size(), left[d], ((uint8_t *)scratch)[d]));
+                }
+                free(scratch);
+            }
+        }
         c.live = false;
     }
 
